@@ -7,6 +7,9 @@
  *   O <path>                                  clockbound_open    -> "O ok" | "O err <kind> <errno> <detail|->"
  *   N                                         clockbound_now     -> "N ok <es> <ens> <ls> <lns> <status> <ids>" | "N err <kind> <errno> <detail|->"
  *   C                                         clockbound_close   -> "C ok" | "C err"
+ *   U <path> <offset> <hex>                   queue a write to the segment file, performed at the next
+ *                                             virtual clock read (the daemon updates the segment while
+ *                                             the client is inside clockbound_now)     (no reply)
  *   S                                         ABI report         -> "S <...>"
  *   Q                                         quit
  */
@@ -18,6 +21,7 @@
 #include <time.h>
 #include <unistd.h>
 #include <sys/syscall.h>
+#include <fcntl.h>
 #include "clockbound.h"
 
 static int virt_on = 0;
@@ -25,10 +29,29 @@ static struct timespec v_real, v_mono;
 static char ids[64];
 static int nids = 0;
 
+#define MAXPEND 4
+static struct { char path[1024]; long off; unsigned char data[128]; size_t len; } pend[MAXPEND];
+static int npend = 0;
+
+static void flush_pending(void)
+{
+	int i;
+	for (i = 0; i < npend; i++) {
+		int fd = open(pend[i].path, O_WRONLY);
+		if (fd >= 0) {
+			if (pwrite(fd, pend[i].data, pend[i].len, pend[i].off) < 0) { /* reported by the comparison */ }
+			close(fd);
+		}
+	}
+	npend = 0;
+}
+
 int clock_gettime(clockid_t clk, struct timespec *ts)
 {
 	if (!virt_on)
 		return (int)syscall(SYS_clock_gettime, clk, ts);
+	if (npend)
+		flush_pending();
 	if (nids < 60)
 		ids[nids++] = (clk == CLOCK_REALTIME) ? 'R' : (clk == CLOCK_MONOTONIC_COARSE) ? 'c' : (clk == CLOCK_MONOTONIC) ? 'm' : '?';
 	if (clk == CLOCK_REALTIME || clk == CLOCK_REALTIME_COARSE)
@@ -80,6 +103,22 @@ int main(void)
 				(long long)res.earliest.tv_sec, (long long)res.earliest.tv_nsec,
 				(long long)res.latest.tv_sec, (long long)res.latest.tv_nsec,
 				(int)res.clock_status, nids ? ids : "-");
+		} else if (line[0] == 'U') {
+			char path[1024], hex[300];
+			long off;
+			if (npend < MAXPEND && sscanf(line + 1, "%1023s %ld %299s", path, &off, hex) == 3) {
+				size_t k, hl = strlen(hex) / 2;
+				if (hl > sizeof pend[0].data) hl = sizeof pend[0].data;
+				for (k = 0; k < hl; k++) {
+					unsigned int b = 0;
+					sscanf(hex + 2 * k, "%2x", &b);
+					pend[npend].data[k] = (unsigned char)b;
+				}
+				pend[npend].len = hl;
+				pend[npend].off = off;
+				strcpy(pend[npend].path, path);
+				npend++;
+			}
 		} else if (line[0] == 'C') {
 			if (ctx) {
 				clockbound_err const *e = clockbound_close(ctx);
